@@ -234,8 +234,9 @@ impl<'t> World<'t> {
         }
     }
 
+    /// keep a few logged comparisons for the evidence file (skipping the dullest ones)
     pub fn sample(&mut self, line: String) {
-        if self.out.samples.len() < 3 {
+        if self.out.samples.len() < 3 && line.chars().count() >= 48 {
             self.out.samples.push(line);
         }
     }
